@@ -12,7 +12,7 @@ edit_distance.cc elide_middle.cc eval_env.cc explanations.cc graph.cc graphviz.c
 manifest_parser.cc metrics.cc missing_deps.cc parser.cc real_command_runner.cc state.cc status_printer.cc string_piece_util.cc
 util.cc version.cc depfile_parser.cc lexer.cc subprocess-posix.cc jobserver-posix.cc""".split()
 
-SAN = ["-fsanitize=address,undefined", "-fno-sanitize-recover=undefined", "-fno-omit-frame-pointer"]
+SAN = ["-fsanitize=address,undefined", "-fno-sanitize=alignment", "-fno-sanitize-recover=undefined", "-fno-omit-frame-pointer"]
 
 
 def build_libninja(scratch, sanitize=True):
